@@ -11,7 +11,7 @@ from proj import retry as proj
 from proj.common import ticks
 
 ID = "C05"
-LEAN_MODULES = ["MoreExec.Props.C05"]
+LEAN_MODULES = ["MoreExec.Props.C05", "MoreExec.Props.C03"]
 THEOREMS = [
     "MoreExec.Retry.C05_attempts_sequential",
     "MoreExec.Retry.C05_never_early",
@@ -22,6 +22,9 @@ THEOREMS = [
     "MoreExec.Retry.C05_attempts_bounded",
     "MoreExec.Retry.C05_next_job_spec",
     "MoreExec.Retry.C05_eval_policy_facts",
+    # "exactly then, not at a later fall-back wake-up": the submit thread's wait / clear / re-scan protocol
+    "MoreExec.WakeProto.C03_sleep_invariant",
+    "MoreExec.WakeProto.C03_no_overshoot",
 ]
 KERNELS = ["K1", "K2"]
 BUDGET = {"quick": 150, "thorough": 1500}
@@ -233,6 +236,10 @@ def run_one(desc):
     else:
         try:
             blocks.append(proj.project(s.log, desc))
+            if desc["base"] != "simsync":
+                # the same execution projected onto the wake-up protocol model: every set / wait(time-out) / clear of the submit
+                # thread's event, the scans, and the idle jumps (an attempt starts exactly when due, not at a later wake-up)
+                blocks.append(proj.project(s.log, desc, wake=True))
         except proj.ProjError as e:
             verd.append("DIVERGE 0 [projection] %s" % e)
     nr = sum(1 for e in s.log if e[1] == "policy" and e[2] == "should_retry")
